@@ -1,7 +1,7 @@
 #!/bin/sh
 # convenience: run every claimed property's quick check sequentially (writes evidence)
 cd "$(dirname "$0")"
-for p in C14 C19 C16 C04 C05 C03 C18 C15 C06 C02 C12 C10 C11 C07 C08 C13 C01; do
+for p in C14 C19 C16 C04 C05 C03 C18 C15 C06 C09 C02 C12 C10 C11 C07 C08 C13 C01; do
   ./check $p --tier quick > .work/quick_$p.log 2>&1
   echo "$p exit=$? $(tail -1 .work/quick_$p.log)"
 done
